@@ -82,13 +82,17 @@ Qed.
 Definition available (s : qst) (item : tbl) : list tref :=
   base_tables s ++ map (fun j => Some (j_item j)) (q_joins s) ++ [Some item].
 
-Lemma available_some : forall s item x, mem (Some x) (available s item) = join_source s item x.
+Lemma existsb_joins_map : forall x (js : list jrec),
+  existsb (fun j => tbl_eqb x (j_item j)) js = existsb (tbl_eqb x) (map j_item js).
+Proof. intros x js. induction js as [|j js IH]; cbn; auto. now rewrite IH. Qed.
+Lemma available_some : forall s item x, mem (Some x) (available s item) = existsb (tbl_eqb x) (sources s item).
 Proof.
-  intros s item x. unfold available, base_tables, join_source.
-  rewrite !mem_app, !mem_some_map, mem_some_joins. cbn.
+  intros s item x. unfold available, base_tables, sources.
+  rewrite !mem_app, !mem_some_map, mem_some_joins, existsb_joins_map. cbn [existsb].
+  rewrite !existsb_app. cbn.
   destruct (q_update s) as [u|]; cbn;
     destruct (tbl_eqb x item), (existsb (tbl_eqb x) (q_from s)), (existsb (tbl_eqb x) (q_with s)),
-             (existsb (fun j => tbl_eqb x (j_item j)) (q_joins s)); try destruct (ptab_eqb _ _); try destruct (tbl_eqb x (TTab u)); reflexivity.
+             (existsb (tbl_eqb x) (map j_item (q_joins s))); try destruct (tbl_eqb x (TTab u)); reflexivity.
 Qed.
 
 Lemma validate_on_forallb : forall s item ts,
@@ -102,26 +106,44 @@ Proof.
   now rewrite E.
 Qed.
 
-(* JoinOn.validate rejects exactly the criteria that name a table (not a WITH query) which is no source *)
+Lemma existsb_ext_on : forall A (f g : A -> bool) l, (forall x, In x l -> f x = g x) -> existsb f l = existsb g l.
+Proof.
+  intros A f g l H. induction l as [|a l IH]; cbn; auto.
+  rewrite H by (left; auto). rewrite IH; auto. intros; apply H; right; auto.
+Qed.
+
+(* JoinOn.validate rejects exactly the criteria that name a table (not a WITH query) which is no source --
+   unless a named sub-query is indistinguishable, as a set element, from a source it is not (frag_q) *)
 Lemma join_on_exact : forall s item crit,
+  forallb (fun r => match r with
+                    | Some t => forallb (fun u => negb (tbl_eqb t u) || tbl_ident t u) (sources s item)
+                    | None => true
+                    end) (crit_all_tables crit) = true ->
   validate_on s item (crit_all_tables crit) = negb (names_foreign_table s item crit).
 Proof.
-  intros s item crit.
+  intros s item crit Hfr.
   rewrite validate_on_forallb. unfold names_foreign_table.
-  apply forallb_negb_existsb_in. intros [[p|n|a]|] Hin.
-  - rewrite available_some. cbn. now rewrite !orb_false_r, negb_involutive.
+  rewrite forallb_forall in Hfr.
+  apply forallb_negb_existsb_in. intros r Hin. specialize (Hfr r Hin).
+  destruct r as [x|]; [|cbn; now rewrite orb_true_r].
+  assert (E : existsb (tbl_eqb x) (sources s item) = join_source s item x).
+  { unfold join_source. apply existsb_ext_on. intros u Hu.
+    rewrite forallb_forall in Hfr. specialize (Hfr u Hu).
+    destruct (tbl_eqb x u) eqn:E1, (tbl_ident x u) eqn:E2; auto; try discriminate.
+    apply tbl_ident_eqb in E2. congruence. }
+  destruct x as [p|n|a src u].
+  - rewrite available_some, E. cbn. now rewrite !orb_false_r, negb_involutive.
   - cbn. now rewrite orb_true_r.
-  - rewrite available_some. cbn. now rewrite !orb_false_r, negb_involutive.
-  - cbn. now rewrite orb_true_r.
+  - rewrite available_some, E. cbn. now rewrite !orb_false_r, negb_involutive.
 Qed.
 
 Lemma on_field_valid : forall s item f0 r, q_from s = f0 :: r -> validate_on s item [Some f0; Some item] = true.
 Proof.
   intros s item f0 r Hf. rewrite validate_on_forallb. cbn [forallb].
   assert (H1 : mem (Some f0) (available s item) = true).
-  { rewrite available_some. unfold join_source. rewrite Hf. cbn. rewrite tbl_eqb_refl. cbn. now rewrite orb_true_r. }
+  { rewrite available_some. unfold sources. rewrite Hf. cbn. rewrite tbl_eqb_refl. now rewrite orb_true_r. }
   assert (H2 : mem (Some item) (available s item) = true).
-  { rewrite available_some. unfold join_source. now rewrite tbl_eqb_refl. }
+  { rewrite available_some. unfold sources. cbn. now rewrite tbl_eqb_refl. }
   rewrite H1, H2. reflexivity.
 Qed.
 
@@ -338,14 +360,14 @@ Proof.
   - destruct H; discriminate.
 Qed.
 
-Theorem guards_q_exact : forall s c k, wf_q s c = true ->
+Theorem guards_q_exact : forall s c k, wf_q s c = true -> frag_q s c = true ->
   (step_q s c = Err k <-> first_fired guards_q (s, c) = Some k).
 Proof.
-  intros s c k Hwf.
+  intros s c k Hwf Hfr.
   unfold wf_q in Hwf. apply andb_prop in Hwf. destruct Hwf as [Happ Hwf].
   unfold step_q. rewrite Happ. cbn [negb].
   destruct c.
-  - (* from_ *) destruct s; unf; fin.
+  - (* from_ *) destruct s; unf; cbn. destruct (untagged t); fin.
   - (* with_ *) destruct s; unf; fin.
   - (* into *) destruct s; unf; cbn; brk; fin.
   - (* update *) destruct s; unf; cbn; brk; fin.
@@ -362,16 +384,19 @@ Proof.
   - (* groupby *) destruct s; unf; fin.
   - (* rollup *) destruct s; unf; cbn. destruct mysql, n, q_mysql_rollup, q_groupbys; fin.
   - (* join *)
+    unfold join_step.
     destruct h as [[crit|]|n|n|].
-    + unf. cbn. rewrite hd_if. cbn. rewrite (join_on_exact s item crit).
-      destruct (names_foreign_table s item crit); cbn; split; intro H; try discriminate; try tauto.
+    + cbn in Hfr. unf. cbn. rewrite hd_if. cbn.
+      rewrite (join_on_exact s (tag_sub (q_subcount s) item) (retag_crit item (tag_sub (q_subcount s) item) crit) Hfr).
+      destruct (names_foreign_table s (tag_sub (q_subcount s) item) (retag_crit item (tag_sub (q_subcount s) item) crit));
+        cbn; split; intro H; try discriminate; try tauto.
       * injection H as <-. auto.
       * destruct H as [_ <-]. auto.
       * destruct H; discriminate.
     + unf; fin.
     + unf. cbn. destruct n; cbn; [fin|].
       cbn in Hwf. destruct (q_from s) as [|f0 r] eqn:Ef; [discriminate|].
-      rewrite (on_field_valid s item f0 r Ef). fin.
+      rewrite (on_field_valid s _ f0 r Ef). fin.
     + unf. cbn. destruct n; fin.
     + unf; fin.
   - (* on_duplicate_key_update *) destruct s; unf; cbn; brk; fin.
